@@ -7,6 +7,13 @@ Typing discipline: gen_S -> string-ish expr, gen_L -> list of strings, gen_D
 urlize / xmlattr / tojson; such values are only fed to structure-preserving
 consumers (output, ~, +, indent, join element, captures), because cutting or
 re-casing documented markup is the template author's doing, not a leak.
+
+i18n: a share of the cases loads the i18n extension (case['i18n'], see c15_ir);
+in those, {% trans %} blocks (explicit and implicit variables, context string,
+pluralize, trimmed/notrimmed) and gettext/_/ngettext/pgettext/npgettext calls
+(new-style keyword variables, or old-style |format / % formatting) are further
+constructs through which data reaches the output.  Message texts and context
+strings are metacharacter-free template text; only the VARIABLES carry data.
 """
 from __future__ import annotations
 
@@ -36,9 +43,10 @@ FILTER_PARAMS = {
 
 
 class Gen:
-    def __init__(self, rng, mode):
+    def __init__(self, rng, mode, i18n=None):
         self.rng = rng
         self.mode = mode
+        self.i18n = i18n
         self.data = {}
         self.nonces = []
         self.k = 0
@@ -180,6 +188,8 @@ class Gen:
             if r.random() < 0.3:
                 e = ["f", r.choice(["escape", "e"]), e, []]
             return e, False
+        if self.i18n is not None and r.random() < 0.14:
+            return self.gen_gt(depth, allow_struct)
         choice = r.random()
         if choice < 0.50:
             return self.gen_filter(depth, allow_struct)
@@ -377,6 +387,59 @@ class Gen:
             return ["f", "tojson", v, ([[None, ["num", 2]]] if r.random() < 0.2 else [])], True
         raise AssertionError(f)
 
+    # ---------------------------------------------------------------- i18n
+    def i18n_struct(self):
+        """Translations that carry markup of their own make the value structured."""
+        return bool(self.i18n and self.i18n.get("markup"))
+
+    def gen_gt(self, depth, allow_struct, hole=None):
+        """A gettext-family call whose variables carry data -> (expr, struct)."""
+        r = self.rng
+        func = r.choice(["gettext", "gettext", "_", "ngettext", "pgettext", "pgettext", "npgettext"])
+        if self.i18n_struct() and not allow_struct:
+            # the bare data expression instead: markup-carrying translations only go to
+            # structure-preserving consumers
+            return self.gen_S(depth - 1, False)
+        st = self.i18n_struct()
+        args = []
+        nargs = r.choice([1, 1, 1, 2, 0]) if hole is None else r.choice([0, 1])
+        for _ in range(nargs):
+            a, s1 = self.gen_S(depth - 1, allow_struct)
+            st = st or s1
+            args.append([self.name("a"), a])
+        if hole is not None:
+            args.insert(r.randint(0, len(args)), [self.name("a"), hole])
+        num = None
+        if func in ("ngettext", "npgettext"):
+            num = ["num", r.choice([1, 2, 2, 0])] if r.random() < 0.7 else ["f", "length", self.leaf_L(), []]
+        opts = {"ctx": r.choice(["ctx", "menu item"]) if func in ("pgettext", "npgettext") else None,
+                "old": r.choice(["format", "format", "mod"])}
+        return ["gt", func, opts, args, num], st
+
+    def gen_trans(self, depth, allow_struct):
+        """A {% trans %} block whose variables carry data -> (stmt, struct)."""
+        r = self.rng
+        st = self.i18n_struct()
+        args = []
+        for _ in range(r.choice([1, 1, 1, 2, 2, 3, 0])):
+            if r.random() < 0.3:
+                nm = self.name("d")
+                self.data[nm] = self.shape()
+                args.append([None, ["d", nm]])
+            else:
+                a, s1 = self.gen_S(depth - 1, allow_struct)
+                st = st or s1
+                args.append([self.name("a"), a])
+        count = None
+        if r.random() < 0.35:
+            count = ["num", r.choice([1, 2, 2, 0, 7])] if r.random() < 0.7 else ["f", "length", self.leaf_L(), []]
+        opts = {"ctx": r.choice(["ctx", "menu item", "k"]) if r.random() < 0.4 else None,
+                "trim": r.choice([None, None, "trimmed", "notrimmed"]),
+                "cname": r.choice(["num", "num", "n", "count"]),
+                "ws": r.random() < 0.4,
+                "pl_explicit": r.random() < 0.3}
+        return ["trans", opts, args, count], st
+
     def markupify(self, e):
         if e[0] == "f" and e[1] in ("escape", "e"):
             return e
@@ -476,7 +539,10 @@ class Gen:
         r = self.rng
         d1 = depth - 1
         k = r.choice(["setblock", "setblock", "setexpr", "macro", "macro", "macro_arg", "macro_arg",
-                      "import_macro", "import_var", "selfblock", "joiner", "nsattr"])
+                      "import_macro", "import_var", "selfblock", "joiner", "nsattr", "fsetblock", "fsetblock"])
+        if k == "fsetblock":
+            fb, st = self.gen_fblock(d1, allow_struct)
+            return ["cap", k, fb[1], fb[2], fb[3]], st
         if k in ("setblock", "macro", "import_macro", "selfblock"):
             body, st = self.gen_stmts(d1, allow_struct, top=False)
             if k == "import_macro":
@@ -512,6 +578,8 @@ class Gen:
             return ["f", "join", ["list", [h, self.leaf("short")]], [[None, self.leaf("short")]]]
         if c < 0.93:
             return ["f", "replace", h, [[None, ["klit", "lorem"]], [None, self.leaf("short")]]]
+        if self.i18n is not None and c < 0.97:
+            return self.gen_gt(depth, True, hole=h)[0]
         return ["f", r.choice(["string", "trim", "escape", "default"]), h, []]
 
     # --------------------------------------------------------- statements
@@ -530,6 +598,8 @@ class Gen:
 
     def gen_stmt(self, depth, allow_struct=True):
         r = self.rng
+        if self.i18n is not None and (allow_struct or not self.i18n_struct()) and r.random() < 0.2:
+            return self.gen_trans(depth, allow_struct)
         c = r.random()
         d1 = depth - 1
         if depth <= 0 or c < 0.45:
@@ -605,7 +675,13 @@ class Gen:
 
 def gen_case(rng, mode=None):
     mode = mode or rng.choice(["static", "static", "selector", "runtime", "runtime", "runtime"])
-    g = Gen(rng, mode)
+    i18n = None
+    if rng.random() < 0.35:
+        i18n = {"newstyle": rng.random() < 0.55,
+                "install": rng.choice(["null", "null", "object", "object", "uobject", "callables"]),
+                "markup": rng.random() < 0.3, "dup": rng.random() < 0.3,
+                "trim_policy": rng.random() < 0.2}
+    g = Gen(rng, mode, i18n)
     extends = rng.random() < 0.25
     depth = rng.choice([1, 2, 2, 3, 3])
     units = [g.gen_unit(depth, extends) for _ in range(rng.randint(1, 3))]
@@ -616,6 +692,7 @@ def gen_case(rng, mode=None):
         "env": {"sandbox": rng.random() < 0.2, "async": rng.random() < 0.12,
                 "finalize": rng.random() < 0.15, "optimized": rng.random() >= 0.15},
         "extends": extends,
+        "i18n": i18n,
         "units": units,
         "data": g.data,
         "rseed": rng.randint(0, 10**6),
